@@ -3890,6 +3890,70 @@ def iterations_part(chk, n):
 
 
 # ================================================================================================
+# H. the emission table of ONE long-lived Source over a history of requests (one-slot cache)
+# ================================================================================================
+def source_history_part(chk, n_series):
+    """`Source.generate_samples` keeps the table of emission events of the last (photon number, photon filter); over
+    a history of 6-12 requests on one Source the table in use must be the one a fresh Source computes for the current
+    request (theorem slot_cache_transparent evaluated on the real code), and every emitted state must hold at least
+    `filter` photons on the right number of modes."""
+    import perceval as pcvl
+    from perceval.components.source import Source
+    from perceval.utils import BasicState
+    rng = chk.rng
+    inputs = [[1], [1, 1], [1, 0, 1], [2, 0], [1, 1, 1], [0, 1]]
+    for _ in range(n_series):
+        nz = {"brightness": rng.choice([0.9, 0.6, 0.3]), "transmittance": rng.choice([1.0, 0.8]),
+              "g2": rng.choice([0.0, 0.05, 0.2]), "indistinguishability": rng.choice([1.0, 0.9]),
+              "g2_distinguishable": rng.random() < 0.5}
+        src = Source.from_noise_model(noise_model(nz))
+        steps, prev = [], None
+        for _k in range(rng.randint(6, 12)):
+            if prev is not None and rng.random() < 0.3:
+                inp, f = prev                                   # same question again: the slot answers
+            elif prev is not None and rng.random() < 0.5:
+                inp = prev[0]                                   # same photon number, another filter
+                f = rng.choice([x for x in range(0, sum(inp) + 1) if x != prev[1]] or [prev[1]])
+            else:
+                inp = rng.choice(inputs)
+                f = rng.randint(0, sum(inp))
+            steps.append([inp, f])
+            prev = (inp, f)
+        seed = rng.randrange(2 ** 31)
+        replay = {"part": "source-history", "noise": nz, "steps": steps, "seed": seed}
+        pcvl.random_seed(seed)
+        last = None
+        bad = None
+        for j, (inp, f) in enumerate(steps):
+            out = src.generate_samples(25, BasicState(inp), f)
+            key = (sum(inp), f)
+            if f > 0:
+                fresh = Source.from_noise_model(noise_model(nz))._compute_prob_table(sum(inp), f)[0]
+                if (src._prob_table_n, src._prob_table_filter) != key or dict(src._prob_table) != dict(fresh):
+                    bad = (j, f"step {j}: generate_samples({inp}, filter {f}) draws from the table of "
+                              f"(n={src._prob_table_n}, filter={src._prob_table_filter})"
+                              f"{'' if dict(src._prob_table) != dict(fresh) else ' (same content)'}")
+                if last == key:
+                    chk.branch("source-table-reused")
+                elif last is not None and last[0] == key[0]:
+                    chk.branch("source-table-replaced-for-another-filter")
+                elif last is not None:
+                    chk.branch("source-table-replaced-for-another-photon-number")
+                last = key
+            else:
+                chk.branch("source-request-without-table")
+            for st in out:
+                if st.m != len(inp) or st.n < f:
+                    bad = (j, f"step {j}: generate_samples({inp}, filter {f}) emitted {st}")
+                    break
+            if bad:
+                break
+        chk.case(("H", json.dumps(nz, sort_keys=True), json.dumps(steps)), nontrivial=True)
+        if bad:
+            chk.fail("violation", "source:emission-depends-on-history", bad[1], dict(replay, steps=steps[:bad[0] + 1]))
+
+
+# ================================================================================================
 # run / replay
 # ================================================================================================
 def load_corpus():
@@ -3978,6 +4042,8 @@ def replay_one(chk, rp):
             chk.fail(*res)
     elif part == "provconst":
         provider_constants(chk)
+    elif part == "source-history":
+        source_history_part(chk, 5)
     elif part == "iterations":
         res = judge_iter(chk, rp["case"])
         chk.case(("G", "replay"), nontrivial=True)
@@ -4056,6 +4122,8 @@ def run(chk: core.Check):
         "series-step-detectors", "series-step-mutate", "series-step-fresh",
         "series-mutate-filter", "series-mutate-noise", "series-mutate-ps", "series-mutate-input",
         "seed-path-fresh-objects", "seed-path-long-lived-objects",
+        "source-table-reused", "source-table-replaced-for-another-filter",
+        "source-table-replaced-for-another-photon-number", "source-request-without-table",
         "iterations-samples", "iterations-probs", "iterations-under-max_shots_per_call", "iterations-own-max_shots",
         "iterations-own-max_samples", "iterations-parameters-back-to-default", "iterations-noise",
         "iterations-three-or-more", "iterations-raise:RuntimeError",
@@ -4107,6 +4175,7 @@ def run(chk: core.Check):
     # F
     timed("F exact replay of recorded draws", replay_part, chk, chk.pick(400, 3000))
     timed("G Sampler iterations", iterations_part, chk, chk.pick(250, 1500))
+    timed("H one Source over a history of requests", source_history_part, chk, chk.pick(60, 400))
     # C
     timed("C limits", limits_part, chk, chk.pick(6, 24))
     timed("C2 Sampler on strong simulation", strong_part, chk, chk.pick(16, 60), chk.pick(60, 120))
